@@ -254,15 +254,71 @@ func SortIdx(docs []D, spec D) ([]int, error) {
 	return idx, nil
 }
 
-// Project applies a simple projection: top-level / dotted inclusion or
-// exclusion through embedded documents, with _id handling.
+// Project applies a projection: top-level / dotted inclusion or exclusion
+// through embedded documents, with _id handling, plus at most one $slice or
+// $elemMatch expression. A $slice leaves everything but the named array as the
+// rest of the projection decides; a $elemMatch path counts as an inclusion whose
+// value is the first matching element (absent when nothing matches).
 func Project(doc D, proj D) (D, error) {
 	if proj == nil {
 		return doc, nil
 	}
 	var inc, exc []string
 	hideID := false
+	type overlay struct {
+		path string
+		val  any
+	}
+	var over []overlay
+	skip := map[string]bool{}
 	for _, e := range proj {
+		if ex, ok := e.Value.(D); ok {
+			if len(ex) != 1 {
+				return nil, bad("projection expression")
+			}
+			cur := Get(doc, e.Key)
+			switch ex[0].Key {
+			case "$slice":
+				arr, isArr := cur.(A)
+				w, err := sliceWindow(arr, ex[0].Value)
+				if err != nil {
+					return nil, err
+				}
+				if isArr {
+					over = append(over, overlay{e.Key, w})
+				}
+			case "$elemMatch":
+				q, ok := ex[0].Value.(D)
+				if !ok {
+					return nil, bad("$elemMatch needs a document")
+				}
+				// the conditions apply to the fields of one element
+				cond := D{}
+				for _, c := range q {
+					if strings.HasPrefix(c.Key, "$") {
+						return nil, bad("$elemMatch projection over %s", c.Key)
+					}
+					cond = append(cond, bson.E{Key: "item." + c.Key, Value: c.Value})
+				}
+				inc = append(inc, e.Key)
+				skip[e.Key] = true
+				if arr, isArr := cur.(A); isArr {
+					for _, it := range arr {
+						ok, err := Match(D{{Key: "item", Value: it}}, cond)
+						if err != nil {
+							return nil, err
+						}
+						if ok {
+							over = append(over, overlay{e.Key, A{Clone(it)}})
+							break
+						}
+					}
+				}
+			default:
+				return nil, bad("unknown projection operator %s", ex[0].Key)
+			}
+			continue
+		}
 		on := truthy(e.Value)
 		if e.Key == "_id" {
 			if !on {
@@ -286,6 +342,9 @@ func Project(doc D, proj D) (D, error) {
 			out = append(out, bson.E{Key: "_id", Value: id})
 		}
 		for _, p := range inc {
+			if skip[p] {
+				continue
+			}
 			if v := Get(doc, p); v != Missing {
 				r, err := put(out, strings.Split(p, "."), Clone(v))
 				if err != nil {
@@ -300,10 +359,63 @@ func Project(doc D, proj D) (D, error) {
 			out = unset(out, strings.Split(p, ".")).(D)
 		}
 	}
+	for _, o := range over {
+		r, err := put(out, strings.Split(o.path, "."), o.val)
+		if err != nil {
+			return nil, err
+		}
+		out = r.(D)
+	}
 	if hideID {
 		out = unset(out, []string{"_id"}).(D)
 	}
 	return out, nil
+}
+
+// sliceWindow is the $slice projection window: n > 0 the first n, n < 0 the
+// last -n, [skip, limit] limit elements after skipping (a negative skip counts
+// from the end).
+func sliceWindow(arr A, arg any) (A, error) {
+	num := func(v any) (int, bool) {
+		switch n := v.(type) {
+		case int32:
+			return int(n), true
+		case int64:
+			return int(n), true
+		case float64:
+			return int(n), true
+		}
+		return 0, false
+	}
+	n := len(arr)
+	if pair, ok := arg.(A); ok {
+		if len(pair) != 2 {
+			return nil, bad("$slice needs two elements")
+		}
+		s, ok1 := num(pair[0])
+		l, ok2 := num(pair[1])
+		if !ok1 || !ok2 || l < 0 {
+			return nil, bad("$slice arguments")
+		}
+		start := s
+		if s < 0 {
+			start = max(n+s, 0)
+		}
+		start = min(start, n)
+		end := min(start+l, n)
+		return Clone(arr[start:end]).(A), nil
+	}
+	l, ok := num(arg)
+	if !ok {
+		return nil, bad("$slice needs a number or an array")
+	}
+	switch {
+	case l > 0:
+		return Clone(arr[:min(l, n)]).(A), nil
+	case l < 0:
+		return Clone(arr[n-min(-l, n):]).(A), nil
+	}
+	return A{}, nil
 }
 
 // Distinct returns the distinct values at path (array elements individually), ascending.
